@@ -430,6 +430,8 @@ package parse
 //@   ensures implies(pfx == "" || old(node_prefix(n.tree.Root)) == pfx, result0 == old(n.tree.Root) && result1 == nil)
 //@   ensures implies(pfx != "" && old(node_prefix(n.tree.Root)) != pfx && !skipUnknown &&
 //@           !old(exists(k, 0, len(imports(n.tree.Root)), node_prefix(imports(n.tree.Root)[k]) == pfx)), result1 != nil)
+//@   ensures implies(pfx != "" && old(node_prefix(n.tree.Root)) != pfx && skipUnknown &&
+//@           !old(exists(k, 0, len(imports(n.tree.Root)), node_prefix(imports(n.tree.Root)[k]) == pfx)), result0 == nil && result1 == nil)
 
 // The namespace of a node is that of the module that USES it (grouping copies), the belongs-to module's for a
 // submodule; a prefix inside an expression is mapped through the imports of the module of DEFINITION.
@@ -446,7 +448,7 @@ package parse
 //@   requires n != nil && n.tree != nil && n.tree.Root != nil
 //@   modifies mapof(modules)
 //@   ensures implies(prefix != "" && old(node_prefix(n.tree.Root) == prefix) && node_root(old(n.tree.Root)) != nil, result1 == nil && result0 == node_ns(node_root(old(n.tree.Root))))
-//@   ensures implies(prefix != "" && old(node_prefix(n.tree.Root) != prefix) && !skipUnknown &&
+//@   ensures implies(prefix != "" && old(node_prefix(n.tree.Root) != prefix) &&
 //@           !old(exists(k, 0, len(imports(n.tree.Root)), node_prefix(imports(n.tree.Root)[k]) == prefix)), result1 != nil)
 // createFakeModule parses a generated stub module: it only allocates new objects.
 //@ func createFakeModule
